@@ -1043,3 +1043,163 @@ R("purge-window-helper", ["C10"],
 }
 
 func (vs *ValidatorStore) GetBitcoinKeys("""))
+
+# ------------------------------------------------------------------ C12
+NDEL = "action/network_delegation/add_network_delegation.go"
+NUND = "action/network_delegation/network_undelegate.go"
+NREI = "action/network_delegation/reinvest_rewards.go"
+NDST = "data/network_delegation/store.go"
+NDRW = "data/network_delegation/rewards_store.go"
+M("delegate-active-overwritten", "C12", "C12.delegate",
+  (NDEL, """	newCoin := currentDelegation.Plus(coin)""", """	newCoin := coin
+	_ = currentDelegation"""))
+M("delegate-pool-credit-before-debit", "C12", "C12.delegate",
+  (NDEL, """	//Deduct Delegation Amount
+	err = ctx.Balances.MinusFromAddress(delegate.DelegationAddress, coin)
+	if err != nil {
+		return helpers.LogAndReturnFalse(ctx.Logger, balance.ErrBalanceErrorMinusFailed, delegate.Tags(), err)
+	}
+""", ""),
+  (NDEL, """	//Add balance to delegation
+	currentDelegation, _ :=""", """	//Deduct Delegation Amount
+	err = ctx.Balances.MinusFromAddress(delegate.DelegationAddress, coin)
+	if err != nil {
+		return helpers.LogAndReturnFalse(ctx.Logger, balance.ErrBalanceErrorMinusFailed, delegate.Tags(), err)
+	}
+	//Add balance to delegation
+	currentDelegation, _ :="""))
+M("undelegate-no-pool-debit", "C12", "C12.undelegate",
+  (NUND, """	err = ctx.Balances.MinusFromAddress(delagationPool, undelegateCoin)
+	if err != nil {
+		return helpers.LogAndReturnFalse(ctx.Logger, balance.ErrBalanceErrorAddFailed, ud.Tags(), err)
+	}
+""", """	_, _ = delagationPool, balance.ErrBalanceErrorAddFailed
+"""))
+M("undelegate-matures-immediately", "C12", "C12.undelegate",
+  (NUND, """	matureHeight := ctx.Header.GetHeight() + delegationOptions.RewardsMaturityTime""",
+   """	matureHeight := ctx.Header.GetHeight() + 1
+	_ = delegationOptions"""))
+M("undelegate-minus-error-dropped", "C12", "C12.undelegate",
+  (NUND, """	remainCoin, err := delegationCoin.Minus(undelegateCoin)
+	if err != nil {
+		return helpers.LogAndReturnFalse(ctx.Logger, net_delg.ErrDeductingActiveDelgAmount, ud.Tags(), err)
+	}""", """	remainCoin, _ := delegationCoin.Minus(undelegateCoin)"""))
+M("undelegate-pending-overwritten", "C12", "C12.undelegate",
+  (NUND, """		err = ds.SetPendingAmount(ud.Delegator, matureHeight, &newPendingCoin)""",
+   """		_ = newPendingCoin
+		err = ds.SetPendingAmount(ud.Delegator, matureHeight, &undelegateCoin)"""))
+M("undelegate-skips-pending-when-exists", "C12", "C12.undelegate",
+  (NUND, """	} else {
+		// if so, change the amount
+		existingPendingCoin, err := ds.GetPendingAmount(ud.Delegator, matureHeight)
+		if err != nil {
+			return helpers.LogAndReturnFalse(ctx.Logger, net_delg.ErrGettingPendingDelgAmount, ud.Tags(), err)
+		}
+		newPendingCoin := existingPendingCoin.Plus(undelegateCoin)
+		err = ds.SetPendingAmount(ud.Delegator, matureHeight, &newPendingCoin)
+		if err != nil {
+			return helpers.LogAndReturnFalse(ctx.Logger, net_delg.ErrSettingPendingDelgAmount, ud.Tags(), err)
+		}
+	}""", """	} else if existingPendingCoin, err := ds.GetPendingAmount(ud.Delegator, matureHeight); err == nil {
+		newPendingCoin := existingPendingCoin.Plus(undelegateCoin)
+		err = ds.SetPendingAmount(ud.Delegator, matureHeight, &newPendingCoin)
+		if err != nil {
+			return helpers.LogAndReturnFalse(ctx.Logger, net_delg.ErrSettingPendingDelgAmount, ud.Tags(), err)
+		}
+	}"""))
+M("reinvest-minus-error-dropped", "C12", "C12.reinvest",
+  (NREI, """	err = ctx.NetwkDelegators.Rewards.MinusRewardsBalance(invest.Delegator, coinAmt.Amount)
+	if err != nil {
+		return helpers.LogAndReturnFalse(ctx.Logger, netwkDeleg.ErrReinvestRewards, invest.Tags(), err)
+	}""", """	_ = ctx.NetwkDelegators.Rewards.MinusRewardsBalance(invest.Delegator, coinAmt.Amount)
+	_ = netwkDeleg.ErrReinvestRewards"""))
+M("rewardstore-withdraw-ignores-minus", "C12", "C12.withdraw",
+  (NDRW, """	err := drs.MinusRewardsBalance(delegator, amount)
+	if err != nil {
+		return errors.Wrap(err, "Minus from rewards balance")
+	}
+	err = drs.addPendingRewards(delegator, amount, matureHeight)""", """	_ = drs.MinusRewardsBalance(delegator, amount)
+	err := drs.addPendingRewards(delegator, amount, matureHeight)"""))
+M("payer-scans-next-height", "C12", "C12.maturity",
+  (CTRL, """	delegStore.IteratePendingAmounts(height, func(addr *keys.Address, coin *balance.Coin) bool {""",
+   """	delegStore.IteratePendingAmounts(height+1, func(addr *keys.Address, coin *balance.Coin) bool {"""))
+M("payer-stops-on-credit-error", "C12", "C12.maturity",
+  (CTRL, """			logger.Errorf("failed to add pending rewards amount at height: %d to address: %s", height, delegator.String())
+			panic(err)""", """			logger.Errorf("failed to add pending rewards amount at height: %d to address: %s", height, delegator.String())
+			return true"""))
+M("payer-does-not-clear", "C12", "C12.maturity",
+  (CTRL, """		err = rewardsStore.SetPendingRewards(delegator, zero, height)""", """		_ = zero
+		err = rewardsStore.SetPendingRewards(delegator, amt, height)"""))
+M("begin-maturity-only-without-evidence", "C12", "C12.maturity",
+  (CTRL, """		delegEvent, anyMatured := addMaturedAmountsToBalance(&app.Context, app.logger, &req)
+		if anyMatured {
+			result.Events = append(result.Events, delegEvent)
+		}""", """		if len(req.ByzantineValidators) == 0 {
+			delegEvent, anyMatured := addMaturedAmountsToBalance(&app.Context, app.logger, &req)
+			if anyMatured {
+				result.Events = append(result.Events, delegEvent)
+			}
+		}"""))
+M("revert-fix-pending-height-prefix", "C12", "C12.keys",
+  (NDST, """	prefix := append(st.buildPendingKey(), (strconv.FormatInt(height, 10) + storage.DB_PREFIX)...)""",
+   """	prefix := append(st.buildPendingKey(), strconv.FormatInt(height, 10)...)"""))
+M("pending-key-address-first", "C12", "C12.keys",
+  (NDST, """func (st *Store) SetPendingAmount(addr keys.Address, height int64, coin *balance.Coin) error {
+	prefix := st.buildPendingKey()
+	pendingKey := strconv.FormatInt(height, 10) + storage.DB_PREFIX + addr.String()""",
+   """func (st *Store) SetPendingAmount(addr keys.Address, height int64, coin *balance.Coin) error {
+	prefix := st.buildPendingKey()
+	pendingKey := addr.String() + storage.DB_PREFIX + strconv.FormatInt(height, 10)"""))
+M("pending-reward-key-format-diverges", "C12", "C12.keys",
+  (NDRW, """	key := fmt.Sprintf("%spending_%d_%s", string(drs.prefix), height, delegator)""",
+   """	key := fmt.Sprintf("%spending%d_%s", string(drs.prefix), height, delegator)"""))
+R("undelegate-single-read-merge", ["C12"],
+  (NUND, """	if !ds.PendingExists(ud.Delegator, matureHeight) {
+		// if not, add an entry to pending store
+		err := ds.SetPendingAmount(ud.Delegator, matureHeight, &undelegateCoin)
+		if err != nil {
+			return helpers.LogAndReturnFalse(ctx.Logger, net_delg.ErrSettingPendingDelgAmount, ud.Tags(), err)
+		}
+	} else {
+		// if so, change the amount
+		existingPendingCoin, err := ds.GetPendingAmount(ud.Delegator, matureHeight)
+		if err != nil {
+			return helpers.LogAndReturnFalse(ctx.Logger, net_delg.ErrGettingPendingDelgAmount, ud.Tags(), err)
+		}
+		newPendingCoin := existingPendingCoin.Plus(undelegateCoin)
+		err = ds.SetPendingAmount(ud.Delegator, matureHeight, &newPendingCoin)
+		if err != nil {
+			return helpers.LogAndReturnFalse(ctx.Logger, net_delg.ErrSettingPendingDelgAmount, ud.Tags(), err)
+		}
+	}""", """	existingPendingCoin, err := ds.GetPendingAmount(ud.Delegator, matureHeight)
+	if err != nil {
+		return helpers.LogAndReturnFalse(ctx.Logger, net_delg.ErrGettingPendingDelgAmount, ud.Tags(), err)
+	}
+	newPendingCoin := existingPendingCoin.Plus(undelegateCoin)
+	err = ds.SetPendingAmount(ud.Delegator, matureHeight, &newPendingCoin)
+	if err != nil {
+		return helpers.LogAndReturnFalse(ctx.Logger, net_delg.ErrSettingPendingDelgAmount, ud.Tags(), err)
+	}"""))
+R("payer-height-inline-and-pool-helper", ["C12"],
+  (CTRL, """	delegStore.IteratePendingAmounts(height, func(addr *keys.Address, coin *balance.Coin) bool {""",
+   """	delegStore.IteratePendingAmounts(req.Header.Height, func(addr *keys.Address, coin *balance.Coin) bool {"""),
+  (NUND, """	delagationPool, err := ctx.GovernanceStore.GetPoolByName(gov.POOL_DELEGATION)
+	if err != nil {""", """	delagationPool, err := delegationPoolOf(ctx)
+	if err != nil {"""),
+  (NUND, """func runUndelegate(ctx *action.Context, tx action.RawTx) (bool, action.Response) {""",
+   """func delegationPoolOf(ctx *action.Context) (keys.Address, error) {
+	return ctx.GovernanceStore.GetPoolByName(gov.POOL_DELEGATION)
+}
+
+func runUndelegate(ctx *action.Context, tx action.RawTx) (bool, action.Response) {"""))
+R("undelegate-success-flag", ["C12"],
+  (NUND, """	err = ctx.Balances.MinusFromAddress(delagationPool, undelegateCoin)
+	if err != nil {
+		return helpers.LogAndReturnFalse(ctx.Logger, balance.ErrBalanceErrorAddFailed, ud.Tags(), err)
+	}
+
+	return true, action.Response{Events: action.GetEvent(ud.Tags(), "undelegate_success")}""",
+   """	if err = ctx.Balances.MinusFromAddress(delagationPool, undelegateCoin); err == nil {
+		return true, action.Response{Events: action.GetEvent(ud.Tags(), "undelegate_success")}
+	}
+	return helpers.LogAndReturnFalse(ctx.Logger, balance.ErrBalanceErrorAddFailed, ud.Tags(), err)"""))
